@@ -299,12 +299,12 @@ func (ft *funcTrans) assumeInvariants(li *loopInfo) {
 		ft.assume(t.S)
 		w.curTag = ""
 	}
-	if li.lc.Decreases != nil {
-		t := ec.eval(li.lc.Decreases.E)
-		t = ec.concrete(t)
+	li.decVals = nil
+	for _, dc := range li.lc.DecList {
+		t := ec.concrete(ec.eval(dc.E))
 		sym := w.declConstRaw(w.fresh("measure"), t.Sort.Name)
 		w.addFact(fmt.Sprintf("(= %s %s)", sym, t.S))
-		li.decVal = sym
+		li.decVals = append(li.decVals, sym)
 	}
 }
 
@@ -337,13 +337,21 @@ func (ft *funcTrans) backEdge(from *ssa.BasicBlock, li *loopInfo, edgeCond strin
 		o.Focus = fmt.Sprintf("inv:%d:%d", li.ordinal, k+1)
 		o.FocusSet = relatedInvariants(li, k)
 	}
-	if li.lc.Decreases != nil {
-		t := ec.concrete(ec.eval(li.lc.Decreases.E))
-		z := w.zero(t.Sort)
-		ge := w.arith(">=", Term{li.decVal, t.Sort}, z)
-		lt := w.arith("<", t, Term{li.decVal, t.Sort})
+	if len(li.lc.DecList) > 0 {
+		// lexicographic decrease: some component strictly decreases (and was >= 0), all earlier ones are unchanged
+		var alts []string
+		eqPrefix := "true"
+		for k, dc := range li.lc.DecList {
+			t := ec.concrete(ec.eval(dc.E))
+			old := Term{li.decVals[k], t.Sort}
+			z := w.zero(t.Sort)
+			ge := w.arith(">=", old, z)
+			lt := w.arith("<", t, old)
+			alts = append(alts, fmt.Sprintf("(and %s %s %s)", eqPrefix, ge.S, lt.S))
+			eqPrefix = fmt.Sprintf("(and %s (= %s %s))", eqPrefix, t.S, old.S)
+		}
 		ft.obligation("decreases", fmt.Sprintf("loop%d.decreases@b%d", li.ordinal, from.Index), li.lc.Decreases.Src,
-			fmt.Sprintf("(and %s %s)", ge.S, lt.S))
+			"(or "+strings.Join(alts, " ")+")")
 	}
 	ft.reach[ft.cur] = saved
 }
